@@ -4,6 +4,7 @@
   `Driver/Main.lean`.  Core Lean only.
 -/
 import GoIpa.Model.FrInverse
+import GoIpa.Model.FrSqrt
 import GoIpa.Model.Serde
 import GoIpa.Model.Ranges
 import GoIpa.Model.Precomp
@@ -376,7 +377,7 @@ def opFrUn (a : String) : String :=
     let three : Fr := Zp.ofNat R 3
     let five : Fr := Zp.ofNat R 5
     let thirteen : Fr := Zp.ofNat R 13
-    s!"{frHex (-a)} {frHex (a + a)} {frHex (FrInv.inverseValue a)} {frHex (a * a)} {Fr.legendre a} {sqrtCanon (Fr.sqrtRef a)} {frHex (three * a)} {frHex (five * a)} {frHex (thirteen * a)} {hexOfBytes a.bytesLE}"
+    s!"{frHex (-a)} {frHex (a + a)} {frHex (FrInv.inverseValue a)} {frHex (a * a)} {Fr.legendre a} {sqrtCanon (Fr.sqrtRef a)} {match FrSqrt.sqrt a with | none => "nil" | some y => frHex y} {frHex (three * a)} {frHex (five * a)} {frHex (thirteen * a)} {hexOfBytes a.bytesLE}"
   | none => "bad-op"
 
 def opFrDec (kind data : String) : String :=
